@@ -899,17 +899,14 @@ fn main() {
             ],
             required_classes: &[
                 "honest:accept",
-                "hdr:reject:block-hash",
-                "hdr:reject:validators-hash",
-                "hdr:reject:data-hash",
-                "dah:reject:data-hash",
-                "val:reject:validators-hash",
-                "commit:reject:block-hash",
-                "commit:reject:commit-height",
-                "commit:reject:bad-signature",
-                "sig:reject:bad-signature",
-                "sig:reject:sig-count",
-                "sig:reject:no-signature",
+                // per mutation family, whatever error the code reports (the statement only says
+                // "validation fails"; requiring particular error kinds would make a change of
+                // an error variant look like a vacuous run)
+                "hdr:reject*",
+                "dah:reject*",
+                "val:reject*",
+                "commit:reject*",
+                "sig:reject*",
                 "variant:accept",
                 "variant:reject",
             ],
